@@ -141,7 +141,8 @@ def ob_policy(pattern, which, fixed_first, fixed_tmpl=None, budget_s=300):
         for k, v in plain[:2]:
             src[k] = v
         warps = symx.choose("warps", 3)  # absent / empty / well-formed
-        for i, (k, kind) in enumerate(sim_keys):
+        rev = symx.choose("rev", 2) if pattern == "all" else 0   # properties in table order or in reverse order
+        for i, (k, kind) in (list(enumerate(sim_keys))[::-1] if rev else list(enumerate(sim_keys))):
             if k == "VERSION":
                 continue
             if k == "WARPS":
@@ -160,7 +161,7 @@ def ob_policy(pattern, which, fixed_first, fixed_tmpl=None, budget_s=300):
             ch = SSC.SSCChart()
             for f in SIX[:5]:
                 ch[f] = "%s%d!" % (f.lower(), n)
-            for i, (k, kind) in enumerate(cht_keys):
+            for i, (k, kind) in (list(enumerate(cht_keys))[::-1] if rev else list(enumerate(cht_keys))):
                 if k == "WARPS":
                     continue
                 present = pattern == "all" or (pattern == "one" and n == 0 and i == which - len(sim_keys))
@@ -463,7 +464,8 @@ def replay(data):
     src["VERSION"] = val("VERSION", gb("def_s_VERSION")) if pattern != "none" else "0.83"
     src["TITLE"] = "t!"; src["ARTIST"] = "a!"
     warps = gi("warps")
-    for i, (k, kind) in enumerate(sim_keys):
+    rev = gi("rev") if pattern == "all" else 0
+    for i, (k, kind) in (list(enumerate(sim_keys))[::-1] if rev else list(enumerate(sim_keys))):
         if k == "VERSION":
             continue
         if k == "WARPS":
@@ -477,7 +479,7 @@ def replay(data):
         ch = SSCChart()
         for f in SIX[:5]:
             ch[f] = "%s%d!" % (f.lower(), n)
-        for i, (k, kind) in enumerate(cht_keys):
+        for i, (k, kind) in (list(enumerate(cht_keys))[::-1] if rev else list(enumerate(cht_keys))):
             if k == "WARPS":
                 continue
             if pattern == "all" or (pattern == "one" and n == 0 and i == which - len(sim_keys)):
